@@ -7,9 +7,6 @@ EXTENDS IncExec, Json
 
 Export == step = 0 => PrintT("CASE " \o ToJson([cfg |-> cfg, exp |-> exp, order |-> NodeOrd]))
 
-(* exp is a function of cfg: keep it out of the fingerprint *)
-View == <<cfg, step, tasks, res, out, val, fat, rrun, deps, callers, sema, readers, writer,
-          counter, ver, acts, runs, ev, execCnt, execIn, flags>>
 
 (* cases only: do not explore beyond the initial states *)
 OnlyInit == step = 0 /\ DOMAIN acts = {}
